@@ -275,6 +275,22 @@ def structured_alterations(rnd, m, lo, hi, n_pairs=40, n_random=0):
         if m[i] != m[j]:
             x = bytearray(m); x[i], x[j] = x[j], x[i]
             out.append(("swap %d and %d" % (i, j), bytes(x)))
+    # word-structured alterations (comparisons folded over 2/4/8/16-byte words or lanes)
+    for w in (2, 4, 8, 16, 32):
+        if ln >= 2 * w:
+            i = lo + rnd.randrange(0, ln - w)
+            k = rnd.randrange(1, (hi - i - 1) // w + 1) if (hi - i - 1) // w >= 1 else 0
+            if k:
+                mask = rnd.randrange(1, 256)
+                x = bytearray(m); x[i] ^= mask; x[i + k * w] ^= mask
+                out.append(("xor %02x at %d and %d (+%d words of %d)" % (mask, i, i + k * w, k, w), bytes(x)))
+            a = lo + w * rnd.randrange(0, ln // w - 1)
+            b = a + w * rnd.randrange(1, (hi - a) // w)
+            if b + w <= hi and m[a:a + w] != m[b:b + w]:
+                x = bytearray(m); x[a:a + w], x[b:b + w] = m[b:b + w], m[a:a + w]
+                out.append(("swap %d-byte blocks at %d and %d" % (w, a, b), bytes(x)))
+            seg0 = m[lo:hi]
+            out.append(("rotate by %d" % w, m[:lo] + seg0[w:] + seg0[:w] + m[hi:]))
     seg = m[lo:hi]
     for k in (1, ln // 2, ln - 1):
         out.append(("rotate by %d" % k, m[:lo] + seg[k:] + seg[:k] + m[hi:]))
